@@ -41,7 +41,8 @@ def api_cases(draw):
     spec = draw(models.model_specs(names="free", n_state=(1, 5), n_control=(0, 3), n_calib=(0, 2), n_sensors=(1, 2),
                                    n_readings=(1, 4), depth=1, sensor_depth=1, cse=False, innovation=("none",)))
     def subset(names_):
-        return {n: draw(models.signed_val()) for n in names_ if draw(st.booleans())}
+        # 0.0 is a legal named value (an exactly known quantity / a zero variance) and differs from the covariance default
+        return {n: draw(st.one_of(models.signed_val(), st.sampled_from([0.0, 1.0, 1e-12]))) for n in names_ if draw(st.booleans())}
     return {"layer": "api", "model": spec, "state_kw": subset(spec["state"]), "control_kw": subset(spec["control"]),
             "cov_kw": {k: abs(v) for k, v in subset(spec["state"]).items()},
             "reading_kw": {key: subset(list(r)) for key, r in spec["sensors"].items()},
